@@ -125,6 +125,12 @@ def jeq(a, b):
     return _close(a, b)
 
 
+def jsame(a, b):
+    """exact JSON-content identity, also on replay: for assertions of the form "state left exactly as before",
+    where no arithmetic may have happened at all (so no rounding tolerance applies)"""
+    return _exact(a, b)
+
+
 def sel(k, *vals):
     """Pick one of a finite list by a (symbolic) selector int."""
     n = len(vals)
